@@ -41,11 +41,15 @@ def scopes(chk):
     common = {'CmdNames': ['a', 'bb'], 'MEnvNames': [], 'VerbNames': [], 'Leaves': [], 'Labels': [''], 'ComPool': ['c']}
     sc = []
     p = dict(common)
-    p.update({'Budget': 4 if quick else 5, 'Seps': ATTACH if not quick else ['', ' ', '\n', ' \n ', '\t', '\r'], 'TextPool': ['x', ']', '[', 'a]b'],
+    p.update({'Budget': 4, 'Seps': ATTACH if not quick else ['', ' ', '\n', ' \n ', '\t', '\r'], 'TextPool': ['x', ']', '[', 'a]b'],
               'MathTextPool': ['x', '['], 'MathKinds': ['$'], 'EnvNames': ['e'], 'ListNames': [], 'MaxSib': 2, 'MaxArgs': 3})
     sc.append(('attach', p))
+    if not quick:       # one node more with the separators that matter most (budget 5 with all nine separators does not fit in memory)
+        p = dict(p)
+        p.update({'Budget': 5, 'Seps': ['', '\n', ' \r '], 'TextPool': ['x', ']'], 'MathTextPool': ['x']})
+        sc.append(('attach5', p))
     p = dict(common)
-    p.update({'Budget': 4 if quick else 5, 'Seps': ['', ' '], 'TextPool': DETACH_TEXT, 'MathTextPool': ['x', '[', '\n\n'], 'MathKinds': ['$'],
+    p.update({'Budget': 4, 'Seps': ['', ' '] if quick else ['', ' ', '\n'], 'TextPool': DETACH_TEXT, 'MathTextPool': ['x', '[', '\n\n'], 'MathKinds': ['$'],
               'EnvNames': ['e'], 'ListNames': ['itemize'], 'MaxSib': 3, 'MaxArgs': 2})
     sc.append(('detach', p))
     p = dict(common)
